@@ -16,10 +16,10 @@
   with any INTERVAL ≥ 1, BYMONTH, BYMONTHDAY, BYYEARDAY, plain BYDAY (any BYDAY for DAILY / WEEKLY,
   where nth members are demoted), BYHOUR, BYMINUTE, BYSECOND, BYSETPOS (DAILY / MONTHLY / YEARLY; WEEKLY
   only when the start is on the week start, see D-C01e), the defaults taken from the start, COUNT, UNTIL (for WEEKLY: UNTIL not before
-  the start).  Missing: the three sub-daily frequencies (the model skips empty periods, so the
-  refinement is not period-by-period), the three computed masks (BYWEEKNO, nth BYDAY, BYEASTER — for
-  the latter two the mask lemmas `nwdaymask_marks_nth_weekdays` (MONTHLY) and
-  `eastermask_marks_easter_offsets` are proved but not yet wired into the refinement).  Everything else below — including
+  the start), plus `iter_eq_spec_monthly_nth_partial`: MONTHLY with nth weekdays.  Missing: the three
+  sub-daily frequencies (the model skips empty periods, so the refinement is not period-by-period),
+  BYWEEKNO, YEARLY nth BYDAY, and BYEASTER (for the latter the mask lemma
+  `eastermask_marks_easter_offsets` is proved but not yet wired into the refinement).  Everything else below — including
   `iter_strictMono` for all seven frequencies — is proved for ALL rules / all argument sets, with no
   `Supported` hypothesis (so also inside the known-defect classes).
 -/
@@ -30,6 +30,7 @@ import DateutilVerif.Proofs.RRuleWeekly
 import DateutilVerif.Proofs.RRuleEaster
 import DateutilVerif.Proofs.RRuleNth
 import DateutilVerif.Proofs.RRuleValid
+import DateutilVerif.Proofs.RRuleNthMonthly
 
 namespace C01
 open RRule Cal RRule.Tables
@@ -304,6 +305,17 @@ theorem iter_eq_spec_weekly_partial (a : Args) (r : Rule) (wa : WeeklyArgs a) (h
     (iter r n).1 = Spec.RRule.occ a n :=
   iter_eq_spec_weekly wa h n hn
 
+/-- **`iter_eq_spec`, proved portion, MONTHLY with nth weekdays** ("the last Friday of every month",
+    "the 2nd Tuesday every 3 months"): INTERVAL ≥ 1, valid start, BYDAY made of nth weekdays only (any
+    magnitude, positive from the month's start, negative from its end), any BYMONTH / BYYEARDAY / BYHOUR /
+    BYMINUTE / BYSECOND / BYSETPOS, any COUNT / UNTIL, no BYMONTHDAY / BYWEEKNO / BYEASTER: exactly the
+    specification's recurrence set.  (The nth-weekday mask with the D-C01b range guard, the filter with
+    that mask, and `rebuild` succeeding for every month 0001-01 .. 9999-12 are part of the proof.) -/
+theorem iter_eq_spec_monthly_nth_partial (a : Args) (r : Rule) (na : NthMArgs a) (h : construct a = .ok r)
+    (n : Nat) (hm : (a.dtstart.y * 12 + (a.dtstart.m - 1) + n * a.interval) / 12 ≤ 9999) :
+    (iter r n).1 = Spec.RRule.occ a n :=
+  iter_eq_spec_monthly_nth na h n hm
+
 /-! ### non-vacuity and the known-finding witnesses reproduced by the model -/
 
 def dt (y m d : Int) (hh : Int := 0) (mm : Int := 0) (ss : Int := 0) : DT := { y, m, d, hh, mm, ss, us := 0 }
@@ -342,6 +354,12 @@ example : dates (construct { freq := 1, dtstart := dt 2024 1 31 8, interval := 2
     = [(2024, 1, 31), (2024, 3, 31), (2024, 5, 31)] := by decide +kernel
 example : dates (construct { freq := 3, dtstart := dt 2024 2 28 9 30, interval := 1, bymonthday := some [-1], count := some 3 }) 70
     = [(2024, 2, 29), (2024, 3, 31), (2024, 4, 30)] := by decide +kernel
+
+-- an NthMArgs instance: the last Friday of every month
+example : NthMArgs { freq := 1, dtstart := dt 2024 1 1 18, byweekday := some [(4, -1)] } :=
+  ⟨rfl, by decide, by decide, rfl, rfl, rfl, ⟨[(4, -1)], rfl, by decide, by decide⟩⟩
+example : dates (construct { freq := 1, dtstart := dt 2024 1 1 18, byweekday := some [(4, -1)] }) 3
+    = [(2024, 1, 26), (2024, 2, 23), (2024, 3, 29)] := by decide +kernel
 
 -- D-C01a: MONTHLY with plain MO and nth TU(1): nothing in a whole year although the set has every Monday
 example : dates (construct { freq := 1, dtstart := dt 2020 1 1 9, byweekday := some [(0, 0), (1, 1)] }) 12 = [] := by
